@@ -154,13 +154,15 @@ def build(ctx, skel, mid=None):
     if k == "search_reference":
         return M.SearchResultReference(message_id, controls, [g.text() for _ in range(skel.get("nuri", 1))])
     if k == "extended_request":
-        return M.ExtendedRequest(message_id, controls, g.text(), g.octets() if skel.get("value") else None)
+        # (name_enum: the library's own str-enum member as the name, as its documentation suggests)
+        name = getattr(L.session.ExtendedOperations, skel["name_enum"]) if skel.get("name_enum") else g.text()
+        return M.ExtendedRequest(message_id, controls, name, g.octets() if skel.get("value") else None)
     if k == "extended_response":
         return M.ExtendedResponse(
             message_id,
             controls,
             build_result(g, L, skel.get("nref"), skel.get("code", "sym")),
-            g.text() if skel.get("name") else None,
+            (getattr(L.session.ExtendedOperations, skel["name_enum"]) if skel.get("name_enum") else g.text()) if skel.get("name") else None,
             g.octets() if skel.get("value") else None,
         )
     raise ValueError(k)
@@ -278,6 +280,9 @@ def skeletons(tier):
     for nm in (False, True):
         for v in (False, True):
             add(f"extended_response_n{int(nm)}_v{int(v)}", kind="extended_response", name=nm, value=v, nref=None)
+    for en in ("LDAP_START_TLS", "LDAP_NOTICE_OF_DISCONNECTION"):
+        add(f"extended_request_enum_{en}", kind="extended_request", value=False, name_enum=en)
+        add(f"extended_response_enum_{en}", kind="extended_response", name=True, value=False, nref=None, name_enum=en)
     add("extended_response_ref1", kind="extended_response", name=True, value=True, nref=1)
     # every control form on a small request and a small response
     for i, cs in enumerate(CONTROL_SETS[1:], 1):
